@@ -114,10 +114,8 @@ func (sc *c07Scanner) term(body ast.Node, e ast.Expr, depth int) string {
 		}
 	}
 	if call, ok := e.(*ast.CallExpr); ok && isMethod(callee(info, call), "context.Context", "Err") {
-		if s, ok := call.Fun.(*ast.SelectorExpr); ok {
-			if f := fieldOf(info, s.X); f != nil && namedPath(f.Type()) == "context.Context" && namedPath(selRecv(info, ast.Unparen(s.X))) == namedPath(sc.T) {
-				return "ctxErr"
-			}
+		if s, ok := call.Fun.(*ast.SelectorExpr); ok && sc.isScannerCtx(body, s.X, 0) {
+			return "ctxErr"
 		}
 	}
 	if id, ok := e.(*ast.Ident); ok && depth < 3 {
@@ -144,6 +142,45 @@ func (sc *c07Scanner) term(body ast.Node, e ast.Expr, depth int) string {
 		}
 	}
 	return ""
+}
+
+// isScannerCtx: e denotes the scanner's context: the context field of the scanner itself, or an ALIAS of it - a local
+// with a single definition that copies such a value (`ctx := s.ctx`, `ctx, dec := s.ctx, s.decoder`) in a function
+// that never assigns the field, so the local and the field are the same context for the whole call. An alias taken
+// in a function that also assigns the field (before or after) is not resolved: it may be stale.
+func (sc *c07Scanner) isScannerCtx(body ast.Node, e ast.Expr, depth int) bool {
+	info := sc.pk.TypesInfo
+	e = ast.Unparen(e)
+	if f := fieldOf(info, e); f != nil {
+		return namedPath(f.Type()) == "context.Context" && namedPath(selRecv(info, e)) == namedPath(sc.T)
+	}
+	id, ok := e.(*ast.Ident)
+	if !ok || depth > 3 || body == nil {
+		return false
+	}
+	o, ok := objOf(info, id).(*types.Var)
+	if !ok || o.IsField() || namedPath(o.Type()) != "context.Context" {
+		return false
+	}
+	def, _ := c07SingleDefStmt(info, body, o)
+	if def == nil || !sc.isScannerCtx(body, def, depth+1) {
+		return false
+	}
+	return !c07AssignsField(info, body, fieldOf(info, sc.aliasRoot(body, def, 0)))
+}
+
+// aliasRoot follows single-definition locals to the field selector they copy.
+func (sc *c07Scanner) aliasRoot(body ast.Node, e ast.Expr, depth int) ast.Expr {
+	info := sc.pk.TypesInfo
+	e = ast.Unparen(e)
+	if id, ok := e.(*ast.Ident); ok && depth < 4 {
+		if o, ok := objOf(info, id).(*types.Var); ok && !o.IsField() {
+			if def, _ := c07SingleDefStmt(info, body, o); def != nil {
+				return sc.aliasRoot(body, def, depth+1)
+			}
+		}
+	}
+	return e
 }
 
 // c07Input is one abstract input of Err / Scan: the stored error (0 nil, 1 io.EOF, 2 another error), the closed flag,
